@@ -297,6 +297,9 @@ func (C10) Judge(c *Ctx, sc *Scenario) []Violation {
 			Msg: msg + " | argv=" + strings.Join(sc.Argv, " ")})
 	}
 	if combined.TimedOut || combined.Exit == ExitBudget || combined.Exit == ExitPoll {
+		if ExplainedByCrossProduct(c, sc, names) {
+			return vs // eval-all over three or more documents: results multiply, see crossproduct.go
+		}
 		add("O10.0", "hang", "-", "combined run did not terminate")
 		return vs
 	}
